@@ -126,35 +126,37 @@ def run(ctx):
     impl = session.ImplSession()
     try:
         for text, want, kind, ftoks, call_want in progs:
-            impl.it.environment.map.clear()
-            ctx.seen(("fault", text), nontrivial=(want or 2) >= 2)
-            try:
-                with core.time_limit(5):
-                    impl.it.interpret(text, "prog.ckl")
-                got = ('val',)
-            except CklRuntimeError as e:
-                got = ('rt', e.pos.line if e.pos else None, e.pos.filename if e.pos else None, list(e.stacktrace))
-            except CklSyntaxError as e:
-                got = ('syn', e.pos.line if e.pos else None, e.pos.filename if e.pos else None, [])
-            except core.Timeout:
-                got = ('timeout',)
-            except Exception as e:  # noqa
-                got = ('host', type(e).__name__)
-            rp = {"op": "fault", "src": text, "fault": " ".join(ftoks), "expected_line": want}
-            if kind == 'syn-eof':
-                if got[0] != 'syn':
-                    ctx.violation("oracle", f"unterminated program not reported as a syntax error: {got[:2]}", rp)
-                continue
-            kind = 'syn' if kind == 'syn-last' else kind
-            if got[0] != kind:
-                ctx.violation("oracle", f"planted {kind} fault `{' '.join(ftoks)}` gives {got[:3]}: {text!r}", rp)
-            elif got[1] != want or got[2] != "prog.ckl":
-                ctx.violation("oracle", f"fault `{' '.join(ftoks)}` starts on line {want} of prog.ckl but is reported at {got[2]}:{got[1]}: {text!r}", rp)
-            if call_want is not None and got[0] == 'rt':
-                # the call site g1(1) is in the stack trace with the file name and its own line
-                entries = [x.rsplit(" ", 1)[-1] for x in got[3] if x.startswith("g1(")]
-                if len(entries) != 1 or not entries[0].startswith(f"prog.ckl:{call_want}:"):
-                    ctx.violation("oracle", f"stack-trace entry for the call on line {call_want} is {got[3]}: {text!r}", rp)
+            # the same text is interpreted twice by the same interpreter, under two file names: every report names the file it was given
+            for fname in ("prog.ckl", "again_%d.ckl" % (len(text) % 7)):
+                impl.it.environment.map.clear()
+                ctx.seen(("fault", text), nontrivial=(want or 2) >= 2)
+                try:
+                    with core.time_limit(5):
+                        impl.it.interpret(text, fname)
+                    got = ('val',)
+                except CklRuntimeError as e:
+                    got = ('rt', e.pos.line if e.pos else None, e.pos.filename if e.pos else None, list(e.stacktrace))
+                except CklSyntaxError as e:
+                    got = ('syn', e.pos.line if e.pos else None, e.pos.filename if e.pos else None, [])
+                except core.Timeout:
+                    got = ('timeout',)
+                except Exception as e:  # noqa
+                    got = ('host', type(e).__name__)
+                rp = {"op": "fault", "src": text, "fault": " ".join(ftoks), "expected_line": want}
+                if kind == 'syn-eof':
+                    if got[0] != 'syn':
+                        ctx.violation("oracle", f"unterminated program not reported as a syntax error: {got[:2]}", rp)
+                    continue
+                kind = 'syn' if kind == 'syn-last' else kind
+                if got[0] != kind:
+                    ctx.violation("oracle", f"planted {kind} fault `{' '.join(ftoks)}` gives {got[:3]}: {text!r}", rp)
+                elif got[1] != want or got[2] != fname:
+                    ctx.violation("oracle", f"fault `{' '.join(ftoks)}` starts on line {want} of {fname} but is reported at {got[2]}:{got[1]}: {text!r}", rp)
+                if call_want is not None and got[0] == 'rt':
+                    # the call site g1(1) is in the stack trace with the file name and its own line
+                    entries = [x.rsplit(" ", 1)[-1] for x in got[3] if x.startswith("g1(")]
+                    if len(entries) != 1 or not entries[0].startswith(f"{fname}:{call_want}:"):
+                        ctx.violation("oracle", f"stack-trace entry for the call on line {call_want} is {got[3]}: {text!r}", rp)
     finally:
         impl.close()
     # runtime error lines: model evaluator vs implementation
